@@ -128,11 +128,11 @@ func (d *PathDecoder) candidatesFromHooks(ctx context.Context, attr *hclsyntax.A
 		// Since text edits only support a single line, we're resetting the End
 		// position here.
 		editRng.End = pos
-		if editRng.Start.Byte > pos.Byte {
-			// the position is before the (empty) expression,
-			// e.g. right after the equals sign
-			editRng.Start = pos
-		}
+	}
+	if editRng.Start.Byte > pos.Byte {
+		// the position is before the expression,
+		// e.g. right after the equals sign
+		editRng.Start = pos
 	}
 	prefixRng := attr.Expr.Range()
 	prefixRng.End = pos
